@@ -75,7 +75,10 @@ pub fn check_inrange(ctx: &Ctx, c: &Case) -> Check {
     let n = nl(e.rlat);
     let ni = if n > i { n - i } else { 1 }.max(1);
     let dlon = span / ni as f64;
-    if (c.ref_lat - e.rlat).abs() > 0.95 * dlat / 2.0 || dlon_abs(c.ref_lon, c.lon) > 0.95 * dlon / 2.0 {
+    // a single 360-degree longitude zone (airborne, beyond 87 degrees): every reference longitude designates the same
+    // point modulo 360, nothing is ambiguous there
+    let single_zone = !c.surface && ni == 1;
+    if (c.ref_lat - e.rlat).abs() > 0.95 * dlat / 2.0 || (!single_zone && dlon_abs(c.ref_lon, c.lon) > 0.95 * dlon / 2.0) {
         ctx.exclude("reference within range by distance but beyond 0.95 half-zones in a coordinate (high latitudes; physically ambiguous)");
         return Ok(());
     }
@@ -257,6 +260,7 @@ fn any_case() -> impl Strategy<Value = Case> {
 pub fn run(ctx: &Ctx) {
     ctx.set_rule("in-range family: truth from the C04 strata, airborne/surface x even/odd, reference = truth moved along a random bearing by r*0.95*range (r uniform, r = 1 for 1/8), additionally within 0.95 half-zones per coordinate (else excluded, counted); oracle: position within 10 m, longitude modulo 360. any-reference family: arbitrary finite references (huge, denormal, zone edges, poles, antimeridian); oracle: absent, or latitude in [-90,90] and within half a zone of the reference in both coordinates (zone width recomputed with an independent NL). sequence family: the same report against an arbitrary reference, a report a whole number of latitude zones away (same latitude count) against its own near reference, the other parity of the same point, then the case itself, forwards and backwards on one thread, each judged by its own oracle. Half of the reports carry, in their own latitude / longitude fields, a position left by an earlier decoding pass (another place, the origin, NaN): the answer may not depend on it. Carrier frames use every airborne / surface type code, any altitude / movement code and address. Non-trivial = in-range case with the reference >= 1 NM from the truth, or any any-reference case; distinct by (counts, format, parity, reference bits).");
     ctx.assume("independent CPR encoder; great-circle distances on a sphere R = 6371008.8 m");
+    corners_and_caps(ctx);
     let n1 = ctx.tier.pick(1_000_000u32, 12_000_000u32);
     let n2 = ctx.tier.pick(500_000u32, 6_000_000u32);
     let n3 = ctx.tier.pick(160_000u32, 2_000_000u32);
@@ -280,6 +284,83 @@ pub fn run(ctx: &Ctx) {
             check_sequence(ctx, cs)
         });
     });
+}
+
+/// Deterministic thin regions the random strata meet with probability ~0: (a) zone corners — both CPR counts zero, or
+/// one of them — (b) the polar caps with the reference on the other side of the pole, exactly half a turn away in
+/// longitude and nearly so, (c) surface and airborne reports from the poles themselves.
+fn corners_and_caps(ctx: &Ctx) {
+    let mut n = [0u64; 4];
+    // (a) corners of the even and odd zone grids
+    for odd in [false, true] {
+        let i = odd as u32;
+        let dlat = 360.0 / (60.0 - i as f64);
+        for k in -14i32..=14 {
+            let lat = dlat * k as f64;
+            if lat.abs() > 86.9 {
+                continue;
+            }
+            let n_l = nl(lat);
+            let ni = if n_l > i { n_l - i } else { 1 }.max(1);
+            let dlon = 360.0 / ni as f64;
+            for m in 0..ni {
+                let lon = modp_lon(dlon * m as f64);
+                let e = encode(lat, lon, i, false);
+                let both = e.yz == 0 && e.xz == 0;
+                for (b, d) in [(37.0, 12.0), (151.0, 80.0), (233.0, 150.0), (305.0, 3.0)] {
+                    let (rl, ro) = destination(lat, lon, b, d * NM);
+                    if both {
+                        n[0] += 1;
+                    }
+                    ctx.judge(check_inrange(ctx, &Case { lat, lon, surface: false, odd, ref_lat: rl, ref_lon: ro }));
+                    // the latitude count alone, the longitude count alone
+                    ctx.judge(check_inrange(ctx, &Case { lat, lon: lon + dlon * 0.37, surface: false, odd, ref_lat: rl, ref_lon: ro + dlon * 0.37 }));
+                }
+            }
+        }
+    }
+    ctx.class_n("zone corner: both CPR counts zero", n[0]);
+    // (b) polar caps, reference across the pole
+    for (j, lat) in [88.7f64, 89.0, 89.3, 89.5, 89.9, 89.99, -88.7, -89.0, -89.4, -89.9].into_iter().enumerate() {
+        for odd in [false, true] {
+            for q in 0..24 {
+                let lon = -180.0 + 15.0 * q as f64 + 0.618 * j as f64;
+                let near = Case { lat, lon, surface: false, odd, ref_lat: lat, ref_lon: lon };
+                let Ok((Some((_, lo)), _, _)) = decode(ctx, &near) else {
+                    ctx.judge(check_inrange(ctx, &near));
+                    continue;
+                };
+                for off in [180.0, -180.0, 179.999_999, -179.999_999, 135.0, -90.0] {
+                    n[1] += 1;
+                    ctx.judge(check_inrange(ctx, &Case { ref_lon: lo + off, ..near }));
+                }
+            }
+        }
+    }
+    ctx.class_n("polar cap: reference across the pole (exactly and nearly half a turn away in longitude)", n[1]);
+    // (c) the poles themselves
+    for lat in [90.0f64, -90.0] {
+        for odd in [false, true] {
+            for q in 0..24 {
+                let lon = -180.0 + 15.0 * q as f64;
+                for d in [0.05f64, 0.3, 0.7] {
+                    n[2] += 2;
+                    let rl = lat - lat.signum() * d;
+                    ctx.judge(check_inrange(ctx, &Case { lat, lon, surface: true, odd, ref_lat: rl, ref_lon: lon }));
+                    ctx.judge(check_inrange(ctx, &Case { lat, lon, surface: false, odd, ref_lat: rl, ref_lon: lon + 77.0 }));
+                }
+            }
+        }
+    }
+    ctx.class_n("report from a pole (surface and airborne)", n[2]);
+}
+
+fn modp_lon(l: f64) -> f64 {
+    if l >= 180.0 {
+        l - 360.0
+    } else {
+        l
+    }
 }
 
 fn case_of(v: &Value) -> Case {
